@@ -118,6 +118,11 @@ def families(prop, tier):
     if prop in ('C12',):
         plan = ['enq', 'write', 'relay:T1', 'increment_attempts', 'set_timestamp', 'announce', 'get', 'relay:T1',
                 'increment_attempts', 'set_timestamp', 'get', 'relay:ok']
+        # the same window opened by the start-up listing instead of an announcement (TLC: QueueCore config d23l)
+        lplan = [x if x != 'announce' else 'load' for x in plan]
+        fams.append(dict(name='staleload-gdict', mode='plans', plans=[lplan, lplan[:-1] + ['relay:T1']],
+                         cfg=dict(backend='gdict', gate_store=True, release_startup=False, nmsgs=1, nrcpt=1, backoff=[0, 3, None],
+                                  outcomes=['ok', 'T1'])))
         fams.append(dict(name='staleannounce-gdict', mode='plans', plans=[plan, plan[:-1] + ['relay:T1']],
                          cfg=dict(backend='gdict', gate_store=True, announce=True, nmsgs=1, nrcpt=1, backoff=[0, 3, None],
                                   outcomes=['ok', 'T1'])))
